@@ -484,6 +484,12 @@ def euf_abstract(terms):
         if key in cache:
             return cache[key]
         if z3.is_quantifier(t):
+            if t.is_lambda():
+                # a summand / array comprehension: an opaque array constant (the same term gives the same constant)
+                r = z3.Const("euf_lam_%d" % key, t.sort())
+                keep.append(t)
+                cache[key] = r
+                return r
             raise ValueError("quantifier")
         if not z3.is_app(t) or t.num_args() == 0:
             cache[key] = t
@@ -512,8 +518,7 @@ FAIL_LIMIT = int(os.environ.get("QVC_FAIL_LIMIT", "32"))
 def _solve(idx):
     r = _solve_inner(idx)
     if _FAILS is not None and r[1] != "proved":
-        with _FAILS.get_lock():
-            _FAILS.value += 1
+        _FAILS.value += 1
     return r
 
 
@@ -778,6 +783,69 @@ def extract_model(m, leaves):
     return out
 
 
+def _robust_map(fn, indices, workers, on_crash, per_task_timeout_s=900):
+    """fn over indices in forked worker processes.  A worker that dies (a segmentation fault inside the solver library
+    has been seen) must neither hang the run (multiprocessing.Pool.map waits forever for the lost task) nor take the
+    other tasks with it: after a broken pool the tasks without a result are re-run one process per task, and a task
+    whose own process dies or exceeds the time limit gets `on_crash(index, reason)` - an undecided verdict, never a
+    proof and never a violation."""
+    from concurrent.futures import ProcessPoolExecutor, as_completed
+    from concurrent.futures.process import BrokenProcessPool
+    ctx = mp.get_context("fork")
+    results = {}
+    try:
+        with ProcessPoolExecutor(max_workers=workers, mp_context=ctx) as ex:
+            futs = {ex.submit(fn, i): i for i in indices}
+            for f in as_completed(futs):
+                try:
+                    results[futs[f]] = f.result()
+                except BrokenProcessPool:
+                    break
+    except BrokenProcessPool:
+        pass
+    rest = [i for i in indices if i not in results]
+    if rest:
+        def child(i, conn):
+            try:
+                conn.send(fn(i))
+            finally:
+                conn.close()
+        running = {}
+        todo = list(rest)
+        while todo or running:
+            while todo and len(running) < workers:
+                i = todo.pop(0)
+                a, b = ctx.Pipe(duplex=False)
+                pr = ctx.Process(target=child, args=(i, b))
+                pr.start()
+                b.close()
+                running[i] = (pr, a, time.time())
+            for i, (pr, a, t0) in list(running.items()):
+                if a.poll(0.05):
+                    try:
+                        results[i] = a.recv()
+                    except EOFError:
+                        results[i] = on_crash(i, "exit code %s" % pr.exitcode)
+                    pr.join(5)
+                    del running[i]
+                elif not pr.is_alive():
+                    pr.join(1)
+                    if a.poll(0):
+                        try:
+                            results[i] = a.recv()
+                        except EOFError:
+                            results[i] = on_crash(i, "exit code %s" % pr.exitcode)
+                    else:
+                        results[i] = on_crash(i, "exit code %s" % pr.exitcode)
+                    del running[i]
+                elif time.time() - t0 > per_task_timeout_s:
+                    pr.kill()
+                    pr.join(5)
+                    results[i] = on_crash(i, "no answer within %d s" % per_task_timeout_s)
+                    del running[i]
+    return [results[i] for i in indices]
+
+
 def discharge(obligations, extra_axioms=(), leaves=None, workers=None):
     """fills verdict/model/seconds/backend of each obligation"""
     global _OBS
@@ -787,15 +855,14 @@ def discharge(obligations, extra_axioms=(), leaves=None, workers=None):
              leaves if not isinstance(leaves, list) else leaves[i])
             for i, ob in enumerate(obligations)]
     global _FAILS
-    _FAILS = mp.Value("i", 0)
+    _FAILS = mp.Value("i", 0, lock=False)       # a heuristic counter: races only delay the switch to short attempts
     workers = workers or min(16, max(1, len(obligations)))
     results = []
     if workers == 1 or len(obligations) == 1:
         results = [_solve(i) for i in range(len(obligations))]
     else:
-        ctx = mp.get_context("fork")
-        with ctx.Pool(workers) as pool:
-            results = pool.map(_solve, range(len(obligations)), chunksize=1)
+        results = _robust_map(_solve, list(range(len(obligations))), workers,
+                              lambda i, why: (i, "undecided", None, 0.0, "z3", "solver process crashed (%s)" % why))
     for idx, verdict, model, dt, backend, reason in results:
         ob = obligations[idx]
         ob.verdict, ob.model, ob.seconds, ob.backend = verdict, model, dt, backend
@@ -841,9 +908,8 @@ def vacuity(items, full=False, extra=()):
     _VAC = [(h, g, full, list(extra)) for h, g in items]
     if not _VAC:
         return []
-    ctx = mp.get_context("fork")
-    with ctx.Pool(min(16, len(_VAC))) as pool:
-        out = pool.map(_vac_one, range(len(_VAC)), chunksize=1)
+    out = _robust_map(_vac_one, list(range(len(_VAC))), min(16, len(_VAC)), lambda i, why: ("unknown", "n/a"),
+                      per_task_timeout_s=120)
     _VAC = []
     return out
 
